@@ -75,7 +75,7 @@ func runLog(rec *mon.Recorder, c int, long bool) {
 	if metric == 3 && dim == 1 {
 		dim = 2
 	}
-	g := &smx.Gen{Rng: rng, Dim: dim, Universe: 3 + rng.Intn(10), Metric: metric}
+	g := &smx.Gen{Rng: rng, Dim: dim, Universe: 3 + rng.Intn(10), Metric: metric, ZeroId: c%4 == 2}
 	n := 5 + rng.Intn(36)
 	if long {
 		n = 200 + rng.Intn(1800)
@@ -181,7 +181,7 @@ func runLog(rec *mon.Recorder, c int, long bool) {
 					return
 				}
 				if rng.Intn(2) == 0 { // or diverged contents (uncommitted never applies, but a stale snapshot can)
-					g2 := &smx.Gen{Rng: rng, Dim: dim, Universe: g.Universe, Metric: metric}
+					g2 := &smx.Gen{Rng: rng, Dim: dim, Universe: g.Universe, Metric: metric, ZeroId: g.ZeroId}
 					for x := 0; x < 3; x++ {
 						R.Apply(g2.Next().Bytes)
 					}
